@@ -809,9 +809,9 @@ func main() {
 				}
 				ks.Cached = nil
 			case "mut":
-				mut = drv.Pick(r, []string{"alg_none", "sig_flip", "payload_swap", "flat_evil", "two_sigs_same", "reencode", "payload_null", "payload_typeerr", "two_parts", "kid_swap"})
+				mut = drv.Pick(r, []string{"alg_none", "sig_flip", "payload_swap", "flat_evil", "two_sigs_same", "reencode", "payload_null", "payload_typeerr", "two_parts", "kid_swap", "flat_kid_unprot_other", "flat_kid_unprot_other", "flat_kid_conflict"})
 			default:
-				mut = drv.Pick(r, []string{"typ", "ws_outer", "flat_same", "general_one"})
+				mut = drv.Pick(r, []string{"typ", "ws_outer", "flat_same", "general_one", "flat_kid_unprot", "flat_alg_conflict"})
 			}
 		}
 		tags = append(tags, "sig="+sigTag, "mut="+mut, "alg="+alg)
@@ -822,6 +822,24 @@ func main() {
 		if extremeT {
 			opts.TimeString = false // RFC 3339 has no years beyond 9999 or before 0
 		}
+		// NUMBER SPELLINGS of the time claims in the signed bytes: N.0, a fraction, exponent
+		// forms, a very long mantissa - legal NumericDates whose value truncates to the
+		// whole second the claims carry (every margin stays > 1 s); rarely a spelling
+		// that is no JSON number at all (+N, 0N): the payload then does not unmarshal
+		numform := "int"
+		if !opts.TimeString && r.Chance(1, 4) {
+			opts.NumForm = drv.Pick(r, tok.NumForms)
+			if r.Chance(1, 10) {
+				opts.NumForm = drv.Pick(r, []string{"plus", "leadzero"})
+			}
+			opts.NumWhich = drv.Pick(r, []string{"", "", "exp", "iat", "auth_time", "nbf"})
+			opts.Nbf = nowSec - 30
+			numform = opts.NumForm + "_" + opts.NumWhich
+			if (opts.NumWhich == "auth_time" && c.AuthT == 0) || (opts.NumWhich == "exp" && c.Exp == 0) || (opts.NumWhich == "iat" && c.Iat == 0) {
+				numform = "int" // the claim is absent: nothing is spelled
+			}
+		}
+		tags = append(tags, "numform="+numform)
 		form := "bare"
 		if r.Chance(1, 5) {
 			opts.Lead = drv.Pick(r, []string{"", "", " ", "\n", "\t \r\n"})
@@ -833,6 +851,7 @@ func main() {
 		alt.Spaces = !opts.Spaces
 		spec := tok.BuildSpec{Signer: signer, Alg: alg, Kid: kid, Claims: c, Payload: c.Payload(opts), Mut: mut, OtherKid: "k9",
 			EvilClaims: evil, EvilPayload: evil.Payload(opts), AltPayload: c.Payload(alt), Other: pool.Other(r, signer, alg)}
+		spec.PayloadInvalid = opts.InvalidNumForm() && numform != "int"
 		if spec.Other == nil {
 			spec.Other = pool.Keys[(signer.Mat+1)%8]
 		}
